@@ -101,6 +101,10 @@ const (
 	opWgAdd
 	opWgDone
 	opWgWait
+	opMuLock
+	opMuUnlock
+	opMuRLock
+	opMuRUnlock
 	opSleep
 	opExit
 	opTrySend
@@ -379,6 +383,22 @@ func (b *bmcSys) runSetup(fn *ssa.Function) (ok bool) {
 // hooks: visible operations, allocation, intrinsics
 // ---------------------------------------------------------------------------
 
+// muKind: sync.Mutex / sync.RWMutex operations are visible steps over two
+// counters (writer flag under the mutex' key, readers under key+".r").
+func muKind(name string) int {
+	switch name {
+	case "(*sync.Mutex).Lock", "(*sync.RWMutex).Lock":
+		return opMuLock
+	case "(*sync.Mutex).Unlock", "(*sync.RWMutex).Unlock":
+		return opMuUnlock
+	case "(*sync.RWMutex).RLock":
+		return opMuRLock
+	case "(*sync.RWMutex).RUnlock":
+		return opMuRUnlock
+	}
+	return 0
+}
+
 func wgKeyOf(v Value) string {
 	p, ok := v.(*PtrV)
 	if !ok || p.Obj == nil {
@@ -419,6 +439,9 @@ func (b *bmcSys) hooks() *bmcHooks {
 						case "(*sync.WaitGroup).Done", "(*sync.WaitGroup).Wait", "(*sync.WaitGroup).Add":
 							return true
 						}
+						if muKind(originOf(fv.Fn).String()) != 0 {
+							return true
+						}
 					}
 				}
 			case *ssa.Call:
@@ -432,6 +455,9 @@ func (b *bmcSys) hooks() *bmcHooks {
 				if callee := c.StaticCallee(); callee != nil {
 					switch originOf(callee).String() {
 					case "(*sync.WaitGroup).Add", "(*sync.WaitGroup).Done", "(*sync.WaitGroup).Wait", "time.Sleep", "verif.local/vrt.TrySend", "verif.local/vrt.Sleep":
+						return true
+					}
+					if muKind(originOf(callee).String()) != 0 {
 						return true
 					}
 					return isAtomicModel(originOf(callee).String())
@@ -789,6 +815,34 @@ func (b *bmcSys) intrinsic(m *Machine, name string, fn *ssa.Function, args []Val
 			return &modelRes{}
 		}
 		unsupported("internal: %s reached sequentially in process mode", name)
+	case "(*sync.Mutex).Lock", "(*sync.RWMutex).Lock", "(*sync.Mutex).Unlock", "(*sync.RWMutex).Unlock", "(*sync.RWMutex).RLock", "(*sync.RWMutex).RUnlock":
+		if m.procMode {
+			unsupported("internal: %s reached sequentially in process mode", name)
+		}
+		k := wgKeyOf(args[0])
+		switch muKind(name) {
+		case opMuLock:
+			if b.w.WG[k] != 0 || b.w.WG[k+".r"] != 0 {
+				unsupported("Mutex.Lock would block during set-up")
+			}
+			b.w.WG[k] = 1
+		case opMuUnlock:
+			if b.w.WG[k] == 0 {
+				m.goPanic("sync: unlock of unlocked mutex")
+			}
+			b.w.WG[k] = 0
+		case opMuRLock:
+			if b.w.WG[k] != 0 {
+				unsupported("RWMutex.RLock would block during set-up")
+			}
+			b.w.WG[k+".r"]++
+		case opMuRUnlock:
+			if b.w.WG[k+".r"] == 0 {
+				m.goPanic("sync: RUnlock of unlocked RWMutex")
+			}
+			b.w.WG[k+".r"]--
+		}
+		return &modelRes{}
 	case "time.After":
 		d := args[0].(*term.T)
 		// a timer object per call site and process
@@ -1524,10 +1578,17 @@ func (b *bmcSys) classify(m *Machine, l *bloc) {
 			case "(*sync.WaitGroup).Wait":
 				l.kind = opWgWait
 			default:
-				unsupported("deferred %s as a visible operation", fv.Fn)
+				if k := muKind(originOf(fv.Fn).String()); k != 0 {
+					l.kind = k
+				} else {
+					unsupported("deferred %s as a visible operation", fv.Fn)
+				}
 			}
 			l.wgKey = wgKeyOf(d.args[0])
 			b.wgVar(l.wgKey)
+			if l.kind >= opMuLock && l.kind <= opMuRUnlock {
+				b.wgVar(l.wgKey + ".r")
+			}
 			l.desc = "deferred " + originOf(fv.Fn).Name() + " " + pos
 			return
 		}
@@ -1559,6 +1620,10 @@ func (b *bmcSys) classify(m *Machine, l *bloc) {
 				l.wgKey = wgKeyOf(m.get(fr, c.Args[0]))
 			case "time.Sleep", "verif.local/vrt.Sleep":
 				l.kind = opSleep
+			case "(*sync.Mutex).Lock", "(*sync.Mutex).Unlock", "(*sync.RWMutex).Lock", "(*sync.RWMutex).Unlock", "(*sync.RWMutex).RLock", "(*sync.RWMutex).RUnlock":
+				l.kind = muKind(originOf(callee).String())
+				l.wgKey = wgKeyOf(m.get(fr, c.Args[0]))
+				b.wgVar(l.wgKey + ".r")
 			case "verif.local/vrt.TrySend":
 				l.kind = opTrySend
 				l.arms = []arm{{send: true, ch: chanOf(c.Args[0]), x: c.Args[1]}}
